@@ -719,7 +719,16 @@ fn main() {
                     };
                     let c = Case { src: build_nest(&st, &va, &picks), mode: l.mode, compressed: l.compressed, precision: 10, files: vec![] };
                     vp::report::EXECS.fetch_add(1, std::sync::atomic::Ordering::Relaxed);
-                    let rep = worker::call_t(&json!({"cases": [c]}), 4);
+                    let mut rep = worker::call_t(&json!({"cases": [c]}), 4);
+                    if matches!(&rep, worker::Reply::Died(s) if s.starts_with("timeout")) {
+                        // believe a time-out only if the case is reproducibly slow: a retry
+                        // with a longer limit that answers quickly was scheduling noise
+                        let t0 = std::time::Instant::now();
+                        let again = worker::call_t(&json!({"cases": [c]}), 20);
+                        if !(matches!(&again, worker::Reply::Ok(_)) && t0.elapsed().as_secs_f64() >= 2.0) {
+                            rep = again;
+                        }
+                    }
                     let (k, t) = match rep {
                         worker::Reply::Ok(v) => (
                             v["r"][0][0].as_str().unwrap_or("?").to_string(),
@@ -739,7 +748,7 @@ fn main() {
                             // time-dependent: the depth is not part of the signature, only a floor
                             return Verdict::fail_sig(
                                 format!("nesting-timeout:{}", if d >= 16 { "depth>=16" } else { "shallow" }),
-                                format!("no answer within 4 s at total nesting depth {d} (earlier depths answered)"),
+                                format!("no answer within 4 s (and slow or no answer again on a retry with 20 s) at total nesting depth {d}; earlier depths answered"),
                             );
                         }
                         "died" => {
